@@ -227,6 +227,114 @@ class FlakyStream(object):
         pass
 
 
+DEC_OUTCOMES = ('return', 'raise', 'pending_ok', 'pending_fail', 'done_future', 'raise_base')
+DEC_WHO = ('arbiter', 'watcher', 'other_object')
+
+
+def c10_decorator(held: bool, restarting: bool, who: int, outcome: int) -> bool:
+    """
+    One step of the slot protocol from an ARBITRARY state: util.synchronized around a function whose outcome is chosen
+    by the solver, called on the arbiter itself, on an object that refers to it (a watcher) or on an unrelated object,
+    with the slot free or held by another command and the arbiter restarting or not.  A refused call runs nothing and
+    leaves the slot alone; an accepted call holds the slot exactly as long as the operation lasts, whatever its fate.
+    Inductive: every history of exclusive commands is a sequence of such steps.
+
+    pre: 0 <= who < len(DEC_WHO) and 0 <= outcome < len(DEC_OUTCOMES)
+    post: _
+    """
+    import circus.util as cu
+    from circus.exc import ConflictError
+    from tornado import concurrent
+    who = rt.pick(who, len(DEC_WHO))
+    outcome = rt.pick(outcome, len(DEC_OUTCOMES))
+    oc = DEC_OUTCOMES[outcome]
+    with World() as w:
+        class Arb(object):
+            _exclusive_running_command = 'other_cmd' if held else None
+            _restarting = bool(restarting)
+        arb = Arb()
+
+        class Wat(object):
+            arbiter = arb
+
+        class Other(object):
+            pass
+        seen = {'calls': 0, 'slot_inside': 'unset'}
+        fut = concurrent.Future()
+
+        class Boom(BaseException):
+            pass
+
+        def op(self):
+            seen['calls'] += 1
+            seen['slot_inside'] = arb._exclusive_running_command
+            if oc == 'return':
+                return 42
+            if oc == 'raise':
+                raise ValueError('operation failed synchronously')
+            if oc == 'raise_base':
+                raise Boom()
+            if oc == 'done_future':
+                fut.set_result(7)
+            return fut
+        wrapped = cu.synchronized('the_cmd')(op)
+        target = {'arbiter': arb, 'watcher': Wat(), 'other_object': Other()}[DEC_WHO[who]]
+        governed = DEC_WHO[who] != 'other_object'
+        before = arb._exclusive_running_command
+        ok = True
+        raised = None
+        try:
+            wrapped(target)
+        except ConflictError as e:
+            raised = 'conflict'
+        except ValueError:
+            raised = 'value'
+        except Boom:
+            raised = 'base'
+        if governed and (restarting or held):
+            if raised != 'conflict' or seen['calls'] != 0 or arb._exclusive_running_command != before:
+                rt.note('slot %r restarting %r: the call must be refused untouched; raised %r, ran %d time(s), slot now %r', before, restarting,
+                        raised, seen['calls'], arb._exclusive_running_command)
+                ok = False
+            return rt.verdict(ok)
+        if seen['calls'] != 1:
+            rt.note('accepted call ran the operation %d times', seen['calls'])
+            ok = False
+        if governed and seen['slot_inside'] != 'the_cmd':
+            rt.note('while the operation ran the slot was %r', seen['slot_inside'])
+            ok = False
+        if not governed and arb._exclusive_running_command != before:
+            rt.note('a call on an unrelated object changed the slot')
+            ok = False
+        if oc in ('return', 'raise', 'raise_base'):
+            if (oc == 'raise') != (raised == 'value') or (oc == 'raise_base') != (raised == 'base'):
+                rt.note('outcome %s but the caller saw %r', oc, raised)
+                ok = False
+            if governed and arb._exclusive_running_command is not None:
+                rt.note('the operation ended (%s) but the slot is still %r', oc, arb._exclusive_running_command)
+                ok = False
+        else:
+            if oc in ('pending_ok', 'pending_fail'):
+                if governed and arb._exclusive_running_command != 'the_cmd':
+                    rt.note('the operation is suspended but the slot is %r', arb._exclusive_running_command)
+                    ok = False
+                if oc == 'pending_ok':
+                    fut.set_result(1)
+                else:
+                    fut.set_exception(RuntimeError('failed after suspension'))
+            for _ in range(3):
+                w.turn()
+            if governed and arb._exclusive_running_command is not None:
+                rt.note('the operation ended (%s) but the slot is still %r', oc, arb._exclusive_running_command)
+                ok = False
+            if oc == 'pending_fail':
+                try:
+                    fut.exception()
+                except Exception:   # noqa
+                    pass
+        return rt.verdict(ok)
+
+
 def c10_reloadconfig(fail: int, edit: int) -> bool:
     """
     reloadconfig after an edit of the [circus] section (everything is stopped and started again in process) or of a
@@ -362,6 +470,9 @@ def plan(tier):
     q = tier == 'quick'
     sh = [dict({'first': i, 'gmax': 1 if q else 6}, **({'thirds': [0, 5]} if q else {})) for i in range(len(FIRST))]
     return [
+        Cond('c10_decorator', budget=60, twins=1,
+             bounds={'slot': 'S{free, held by another command}', 'restarting': 'S{False, True}', 'callee': 'S%r' % (DEC_WHO,),
+                     'outcome': 'S%r' % (DEC_OUTCOMES,)}),
         Cond('c10_reloadconfig', budget=120, twins=1,
              bounds={'edit': 'S{[circus] option (in-process restart), watcher cmd, numprocesses only}', 'fail': 'S{restart succeeds, a stream open() raises}'}),
         Cond('c10_slot', shards=sh, budget=240 if q else 1500, twins=2,
